@@ -114,6 +114,12 @@ inductive Level where
   | application | service
   deriving Repr, DecidableEq
 
+/-- the protocol object that decides the HTTP status of a fault -/
+inductive StatusAsker where
+  | requestProtocol      -- `p_ctx.out_protocol`: the protocol that writes the response       (good)
+  | applicationProtocol  -- `self.app.out_protocol`: the configured one, even when replaced
+  deriving Repr, DecidableEq
+
 structure Facts09 where
   /-- the listener calls that `process_request`'s `try` block covers (measured with a raising listener) -/
   hooksInTry : List (Site × Level)
@@ -139,6 +145,9 @@ structure Facts09 where
   client12Ns : Client12Ns
   /-- Soap12.fault_from_element strips the reason text -/
   client12Strip : Bool
+  /-- whose `fault_to_http_response_code` handle_error asks when the user code has replaced
+      `ctx.out_protocol` for the request -/
+  statusAsker : StatusAsker
   deriving Repr
 
 /-! ## status (fault_to_http_response_code) -/
@@ -683,11 +692,12 @@ inductive HttpResult where
   | escapes
   deriving Repr, Inhabited
 
-/-- `handle_error`: status chosen only when unset, then `get_out_string` (unguarded) -/
-def handleError (F : Facts09) (p : Proto) (preset : Option Nat) (e : Cls × FaultV) : HttpResult :=
+/-- `handle_error`: status chosen only when unset (asking protocol `sp`), then `get_out_string`
+    (unguarded) with the protocol `p` that writes the response -/
+def handleError (F : Facts09) (sp p : Proto) (preset : Option Nat) (e : Cls × FaultV) : HttpResult :=
   let status := match (if F.errorPathKeepsStatus then preset else none) with
     | some s => s
-    | none => statusOf F p e.1 e.2.code
+    | none => statusOf F sp e.1 e.2.code
   match encodeFault F p e.2 with
   | some w => .response status w
   | none => .escapes
@@ -713,15 +723,15 @@ def staleDocument (F : Facts09) (p : Proto) (e : Cls × FaultV) : Option Wire :=
   | _ => encodeFault F p e.2
 
 /-- exception `r` raised inside `get_out_string` on the success path -/
-def serializeFailed (F : Facts09) (p : Proto) (preset : Option Nat) (r : Raised) : HttpResult :=
+def serializeFailed (F : Facts09) (sp p : Proto) (preset : Option Nat) (r : Raised) : HttpResult :=
   match F.serErr with
   | .funnelled =>
     -- the error branch clears `resp_code` (the fault decides the status) and the documents
     match funnel F r with
-    | some e => handleError F p none e
+    | some e => handleError F sp p none e
     | none => .escapes           -- a Redirect raised while serialising: not modelled further
   | .genericRecomputed =>
-    handleError F p none (match r with
+    handleError F sp p none (match r with
       | .other x => genericFault F x
       | .redirect (some x) => genericFault F x
       | _ => genericFault F ⟨[], [], []⟩)
@@ -733,33 +743,49 @@ def serializeFailed (F : Facts09) (p : Proto) (preset : Option Nat) (r : Raised)
       | _ => e
     let status := match (if F.errorPathKeepsStatus then some (preset.getD 200) else none) with
       | some s => s
-      | none => statusOf F p e.1 e.2.code
+      | none => statusOf F sp e.1 e.2.code
     match staleDocument F p e with
     | some w => .response status w
     | none => .escapes
 
 /-- WsgiApplication.handle_rpc from `get_out_object` on. `preset` = a response code the
-    user code (or the in protocol) has already put into `ctx.transport.resp_code`. -/
-def wsgi (F : Facts09) (p : Proto) (preset : Option Nat) (u : UserCode) : HttpResult :=
+    user code (or the in protocol) has already put into `ctx.transport.resp_code`; `p` = the
+    protocol that writes the response (`p_ctx.out_protocol`), `sp` = the one asked for the status. -/
+def wsgiOn (F : Facts09) (sp p : Proto) (preset : Option Nat) (u : UserCode) : HttpResult :=
   match process F u with
   | none => .escapes
   | some c =>
   match c.outError with
-  | some e => handleError F p preset e
+  | some e => handleError F sp p preset e
   | none =>
     match c.outObject with
     | .generator (.raises r) _ =>
       -- `first_obj = next(g)`
       if F.genFirstGuarded then
         match funnel F r with
-        | some e => handleError F p preset e
+        | some e => handleError F sp p preset e
         | none => .escapes
       else .escapes
-    | .generator (.value _) (some r) => serializeFailed F p preset r
+    | .generator (.value _) (some r) => serializeFailed F sp p preset r
     | o =>
       match serialize F p ⟨o, none⟩ with
       | some w => .response (preset.getD 200) w
       | none => .escapes
+
+/-- a request whose output protocol is the configured one -/
+def wsgi (F : Facts09) (p : Proto) (preset : Option Nat) (u : UserCode) : HttpResult := wsgiOn F p p preset u
+
+/-- the protocol object whose `fault_to_http_response_code` is asked -/
+def statusProto (F : Facts09) (app writer : Proto) : Proto :=
+  match F.statusAsker with
+  | .requestProtocol => writer
+  | .applicationProtocol => app
+
+/-- a request during which the user code (function body or `method_call` listener) replaces
+    `ctx.out_protocol` by `req` before it returns / raises (`none`: it does not): the response is written
+    by the per-request protocol -/
+def wsgiSwap (F : Facts09) (app : Proto) (req : Option Proto) (preset : Option Nat) (u : UserCode) : HttpResult :=
+  wsgiOn F (statusProto F app (req.getD app)) (req.getD app) preset u
 
 /-! ## the spyne clients (ctx.in_error of the loopback client) -/
 
